@@ -3,7 +3,7 @@ Import ListNotations.
 From BB Require Import BN Brute SpaceFacts TrapFacts PercolateFacts AttractorFacts Diagram Invariants Checks Filter
   Strict PetriNet Control Meta FilterFacts PetriNetFacts TrappistFacts DiagramStruct DiagramSem1 DiagramCache
   DiagramDepth DiagramComplete Termination ControlFacts MetaFacts Candidates StrictFacts MinExpandFacts CandidatesFacts SymbolicTest SymbolicTestFacts Signed ReductionFacts ControlFacts2 Main Blocks BlocksFacts ObsFacts OwnerFacts CandidatesTerm
-  PartialOwner BlockMath BlockComplete ASeeds ASeedsFacts LogChecks SkipRule SkipRuleFacts Names NamesFacts Perm PermFacts."""
+  PartialOwner BlockMath BlockComplete ASeeds ASeedsFacts LogChecks SkipRule SkipRuleFacts Names NamesFacts Perm PermFacts SCC SCCFacts."""
 
 EX_NET = """
 (* non-vacuity: two bistable switches; x0'=x1, x1'=x0, x2'=x3, x3'=x2 *)
@@ -23,7 +23,8 @@ leave stubs: PartialOwner generalises the owner theory to expanded owners; Block
 run reporting completion leaves no attractor unserved (expand_block_one_to_one, expand_aseeds_one_to_one), under
 the contract of the recorded tape -- every block reported clean has no motif-avoidant attractor
 (BlockMath.block_clean), every NFVS hits every negative cycle -- which the extracted LogChecks predicates
-decide on every replayed run.  PARTIAL: the source-SCC strategy is not modelled and has the known finding D15.""",
+decide on every replayed run.  The source-SCC strategy is modelled (SCC.v) and replayed id by id against expand_scc, but the
+clause fails for it: KNOWN FINDING D15, formally D15_refuted (two different expanded nodes own one attractor).""",
  theorems=[("filter_exact", "filter_exact", "given covering candidates, the filter returns exactly one seed per attractor of the node, and the sets are the attractors"),
            ("filter_exact_seeds_only", "filter_exact_seeds_only", "the seeds_only shortcut (last candidate of a pseudo-minimal node) is sound"),
            ("check_seeds_ok", "check_seeds_ok", "the verdict predicate run on the implementation's output is exact"),
@@ -50,7 +51,9 @@ decide on every replayed run.  PARTIAL: the source-SCC strategy is not modelled 
            ("pruned_successor_hides_nothing", "no_new_candidate_sound", "attractor-seed expansion: a successor without new candidates contains no attractor outside the expanded siblings"),
            ("aseeds_expansion_attractors_served", "expand_aseeds_AttrServed", None),
            ("aseeds_expansion_one_to_one", "expand_aseeds_one_to_one", "attractor-seed expansion from any diagram reached by plain operations"),
-           ("nfvs_log_check_exact", "nfvs_log_ok_b_spec", "the run-time check of the NFVS tape is exact")],
+           ("nfvs_log_check_exact", "nfvs_log_ok_b_spec", "the run-time check of the NFVS tape is exact"),
+           ("scc_strategy_refuted", "D15_refuted", "KNOWN FINDING D15: in the diagram the source-SCC strategy builds for a 6-variable network two expanded nodes own the same attractor"),
+           ("scc_witness_facts", "d15_facts", None)],
  examples=EX_NET + """
 Example C01_example_attractors : length (attractors_b ex_sw) = 4.
 Proof. vm_compute. reflexivity. Qed.
